@@ -331,6 +331,11 @@ V('M-optional-only', ['C01', 'C02', 'C09', 'C10'], ('A6.optdef', 'A6.spec'), 'py
 V('M-open-default-first', ['C18'], 'A6.open', BD, "                            try:\n                                openType = openTypes[governingValue]\n\n                            except KeyError:\n\n                                if LOG:\n                                    LOG('default open types map of component '\n                                        '\"%s.%s\" governed by component \"%s.%s\"'\n                                        ':' % (asn1Object.__class__.__name__,\n                                               namedType.name,\n                                               asn1Object.__class__.__name__,\n                                               namedType.openType.name))\n\n                                    for k, v in namedType.openType.items():\n                                        LOG('%s -> %r' % (k, v))\n\n                                try:\n                                    openType = namedType.openType[governingValue]\n\n                                except KeyError:\n                                    if LOG:\n                                        LOG('failed to resolve open type by governing '\n                                            'value %r' % (governingValue,))\n                                    continue\n\n                            if LOG:\n                                LOG('resolved open type %r by governing '\n                                    'value %r' % (openType, governingValue))\n\n                            containerValue = asn1Object.getComponentByPosition(idx)\n\n                            if containerValue.typeId in (\n                                    univ.SetOf.typeId, univ.SequenceOf.typeId):\n\n                                for pos, containerElement in enumerate(\n                                        containerValue):\n\n                                    stream = asSeekableStream(containerValue[pos].asOctets())\n\n                                    for component in decodeFun(stream, asn1Spec=openType, **options):",
   "                            try:\n                                openType = namedType.openType[governingValue]\n\n                            except KeyError:\n\n                                try:\n                                    openType = openTypes[governingValue]\n\n                                except KeyError:\n                                    continue\n\n                            containerValue = asn1Object.getComponentByPosition(idx)\n\n                            if containerValue.typeId in (\n                                    univ.SetOf.typeId, univ.SequenceOf.typeId):\n\n                                for pos, containerElement in enumerate(\n                                        containerValue):\n\n                                    stream = asSeekableStream(containerValue[pos].asOctets())\n\n                                    for component in decodeFun(stream, asn1Spec=openType, **options):")
 
+
+V('M-pos-inside', ['C05', 'C07'], 'A2.pos', BD, "        original_position = substrate.tell()\n        # head = popSubstream(substrate, length)\n        while substrate.tell() - original_position < length:\n            for component in decodeFun(", "        # head = popSubstream(substrate, length)\n        original_position = 0\n        while substrate.tell() - original_position < length:\n            original_position = original_position or substrate.tell()\n            for component in decodeFun(")
+V('M-oid-arc2-40', ['C01', 'C03'], 'W.oidenc', BE, "        if 0 <= second <= 39:", "        if 0 <= second <= 40:")
+V('M-bit-shift', ['C01', 'C03'], 'W.bitenc', BE, "            alignedValue = value << (8 - valueLength % 8)", "            alignedValue = value << (7 - valueLength % 8)")
+
 # --------------------------------------------------------------------------- runner
 
 def _copy_tree(repo, dest):
